@@ -659,6 +659,9 @@ def run(ctx):
     ctx.attempt(_c06.r64, _RP14(ctx, "R-14.12", " (entries inherited from another run name `load/<n>/accepted/<file>` relative to the working directory: the next replacement deletes the files of a same-numbered live path)"))
     ctx.rule("R-14.13", "rows of order.txt / energy.txt are whitespace separated by construction (explicit separator between the formatted fields; a width is only a minimum)", floor=2)
     ctx.attempt(r1413, ctx)
+    ctx.rule("R-14.16", "the restart file never names a path whose files the delete queue has already removed: every step that can delete is committed (each normal path through treat_output writes restart.toml; shared with C08 R-8.11)", floor=1)
+    from .shared import commit_every_step as _ces14
+    ctx.attempt(_ces14, ctx, "R-14.16", " (with delete_old the files of a replaced path are removed two steps later while restart.toml still lists it as live: load_paths of a restart finds no files)")
     ctx.rule("R-14.15", "a row of order.txt / energy.txt is formatted from that row's data only (no state kept on the shared formatter between rows)", floor=2)
     ctx.attempt(r1415, ctx)
     ctx.attempt(r141, ctx)
@@ -681,6 +684,7 @@ def run(ctx):
 
 
 VARIANTS = [
+    B("c14-commit-only-on-printing-steps", REPEX, "            self.print_shooted(md_items, pn_news)\n        # save for possible restart\n        self.write_toml()", "            self.print_shooted(md_items, pn_news)\n            # save for possible restart\n            self.write_toml()", "R-14.16", control=True, why="seeded C14_n"),
     B("c14-order-row-format-memoised-on-the-formatter", FORMATTER, "        towrite = [self.ORDER_FMT[0].format(step)]\n        for orderp in orderdata:\n            towrite.append(self.ORDER_FMT[1].format(orderp))\n        out = \" \".join(towrite)\n        return out\n", "        if getattr(self, \"_row_fmt\", None) is None:\n            self._row_fmt = \" \".join([self.ORDER_FMT[0]] + len(orderdata) * [self.ORDER_FMT[1]])\n        return self._row_fmt.format(step, *orderdata)\n", "R-14.15", control=True, why="seeded C14_m"),
     K("c14-keep-order-row-format-per-call", FORMATTER, "        towrite = [self.ORDER_FMT[0].format(step)]\n        for orderp in orderdata:\n            towrite.append(self.ORDER_FMT[1].format(orderp))\n        out = \" \".join(towrite)\n        return out\n", "        row_fmt = \" \".join([self.ORDER_FMT[0]] + len(orderdata) * [self.ORDER_FMT[1]])\n        return row_fmt.format(step, *orderdata)\n"),
     B("c14-energy-row-separator-folded-into-width", FORMATTER, '    ENERGY_FMT = ["{:>10d}"] + 5 * ["{:>14.6f}"]', '    ENERGY_FMT = ["{:>10d}"] + 5 * ["{:>15.6f}"]', "R-14.13", control=True, also=[(FORMATTER, '        return " ".join(towrite)', '        return "".join(towrite)')], why="seeded C14_k"),
